@@ -29,6 +29,8 @@ pub struct MemInner {
     pub fault_at: Mutex<Option<(usize, io::ErrorKind)>>,
     /// one-shot: the next access of this entry ("F:id.ext" / "D:id") fails
     pub fault_entry: Mutex<Option<(String, io::ErrorKind)>>,
+    /// `configure_hot_reloading` succeeds but drops the sender (a source whose watcher died)
+    pub drop_sender: AtomicBool,
     pub hot: AtomicBool,
     pub no_points: AtomicBool,
 }
@@ -194,6 +196,9 @@ impl Source for Mem {
         }
     }
     fn configure_hot_reloading(&self, ev: EventSender) -> Result<(), BoxedError> {
+        if self.0.drop_sender.load(Ordering::SeqCst) {
+            return Ok(());
+        }
         if let Some(e) = self.0.ext_tx.lock().unwrap().as_ref() {
             *e.lock().unwrap() = Some(ev);
         } else {
